@@ -20,8 +20,10 @@ Cfgs(hostseqs, pols, outs, ks, idems, cancels) ==
 Pols012 == {PolNone} \cup {PolBudget(n) : n \in 0 .. 2}
 CfgQuick ==
   Cfgs(HostSeqs(3, {"ok", "noconn"}), Pols012, CoreOuts, {0, 1}, BOOLEAN, {"none"})
-  \cup Cfgs({<<"ok", "ok">>, <<"ok", "ok", "ok">>, <<"ok", "noconn", "ok">>}, Pols012, CoreOuts, {2}, BOOLEAN, {"none"})
-  \cup Cfgs({<<"ok", "ok">>, <<"ok", "noconn", "ok">>}, {PolBudget(1), PolScript({2})}, ScriptOuts, {0, 1}, BOOLEAN, {"cancel", "deadline"})
+  \cup Cfgs({<<"ok", "ok">>, <<"ok", "noconn", "ok">>}, Pols012, CoreOuts, {2}, BOOLEAN, {"none"})
+  \cup Cfgs({<<"ok", "ok", "ok">>}, {PolBudget(1)}, CoreOuts, {2}, {TRUE}, {"none"})
+  \cup Cfgs({<<"ok", "ok">>}, {PolBudget(1), PolScript({2})}, ScriptOuts, {0, 1}, BOOLEAN, {"cancel", "deadline"})
+  \cup Cfgs({<<"ok", "noconn", "ok">>}, {PolBudget(1)}, CoreOuts, {0, 1}, BOOLEAN, {"cancel", "deadline"})
 \* thorough: all outcome classes, non-monotone budgets, 4 hosts, cancellation everywhere
 CfgThA == Cfgs(HostSeqs(3, {"ok", "noconn"}), Pols012 \cup {PolScript({2})},
                ScriptOuts, 0 .. 2, BOOLEAN, {"none"})
@@ -33,7 +35,7 @@ CfgThorough == CfgThA \cup CfgThB \cup CfgThC
 \* the instance DESIGN.md measured: 4 hosts, budget 2, k = 2
 CfgWitness == Cfgs({<<"ok", "ok", "ok", "ok">>}, {PolBudget(2)}, {"ok", "e_retry", "e_next"}, {2}, {TRUE}, {"none"})
 \* liveness (small)
-CfgLive == Cfgs({<<>>, <<"ok">>, <<"noconn", "ok">>, <<"ok", "ok">>}, {PolNone, PolBudget(1)}, {"ok", "e_retry", "e_next"}, {0, 1}, BOOLEAN, {"none", "cancel", "deadline"})
+CfgLive == Cfgs({<<>>, <<"ok">>, <<"noconn", "ok">>, <<"ok", "ok">>}, {PolNone, PolBudget(1)}, {"ok", "e_retry", "e_next"}, {0, 1}, BOOLEAN, {"none", "deadline"})
 
 \* ---- behaviour dumps (KeepHist = TRUE): one line per complete behaviour
 \* sequential: no speculation (k = 0 or not idempotent); deterministic up to the environment
